@@ -54,6 +54,11 @@ def gen_plan(rng, opts=None):
     if o["partition"]:
         part = dict(host=rng.randrange(n), at_op=rng.randrange(len(ops)), dir=rng.choice(["both", "to_ctrl", "to_exec"]))
         knobs["max_retries"] = rng.choice([3, 5])
+        if rng.random() < 0.4:
+            # a partition that heals before the full retry budget (20 x 800 ms) is used up: nobody may give up, and the copies that
+            # pile up on the far side (or whose acks were lost for many seconds) are still delivered exactly once
+            part.update(heal_s=rng.choice([5, 9, 12, 14]), acks_too=True)
+            knobs["max_retries"] = 20
     return dict(mode="traffic", n=n, wph=wph, ops=ops, net=net, knobs=knobs, partition=part, stagger=stagger, stall=stall)
 
 
@@ -174,6 +179,9 @@ class Mon:
                 mon.delivered_at[key] = fakes.Net.norm(self_.address)
                 if mon.delivered[key] > 1:
                     mon.v("delivered_twice", (key, type(m).__name__))
+                    if type(m).__name__ == "TaskSequence":
+                        # the executor forwards whatever its listener returns to the worker: these tasks are sent for execution again
+                        mon.viol.append(("C02", "task_sequence_handed_to_executor_twice", (key, list(m.tasks)[:3]), {}))
                 s = mon.sent.get(key)
                 if s is None:
                     mon.v("delivered_never_sent", (key, repr(m)[:100]))
@@ -317,6 +325,11 @@ def _run_traffic(plan, ch, want_log):
                 if part and oi == part["at_op"]:
                     pstate["on"], pstate["since"] = True, K.now
                     K.fire("partition")
+                    if part.get("heal_s"):
+                        def heal():
+                            pstate["on"] = False
+                            K.fire("partition_heal")
+                        K.at(K.now + part["heal_s"] * 10**9, heal)
                 if plan.get("stall") and oi == plan["stall"]["at_op"]:
                     victim = next((p for p in K.procs if p.name == f"h{plan['stall']['host']}"), None)
                     if victim is not None:
